@@ -257,7 +257,9 @@ def judgeLoop (pre post : Ob) : Option String :=
       match post.get? t.key with
       | none => none
       | some t1 =>
-        if t1.st == "waiting" && !t1.held then
+        -- (submitted = a job was launched for it in this loop; a noisy failure message may already have sent it
+        -- back to waiting for a retry)
+        if t1.st == "waiting" && !t1.held && !(post.launch.any fun l => l.1 == t.key) then
           some s!"ready-not-run: {showKey t.key} had all prerequisites satisfied and was not submitted by the main loop"
         else none
     else none
